@@ -326,7 +326,9 @@ fn emit_function_cases(out: &mut impl Write, rng: &mut Rng, n: usize) {
         let rs = mk_ranges(&doc, &bs);
         let mut ops: Vec<String> = vec!["S".into()];
         for _ in 0..rng.range(2, 24) {
-            ops.push(match rng.below(16) {
+            ops.push(match rng.below(19) {
+                16 => "I".to_string(),
+                17 | 18 => "C".to_string(),
                 0..=6 => "A".to_string(),
                 7 | 8 => "K".to_string(),
                 9 | 10 => "M".to_string(),
@@ -345,6 +347,13 @@ fn emit_function_cases(out: &mut impl Write, rng: &mut Rng, n: usize) {
 
 fn main() {
     limit_resources();
+    // watchdog: a mutated runtime that loops forever must not hang the check (SIGALRM kills the explorer)
+    extern "C" {
+        fn alarm(seconds: u32) -> u32;
+    }
+    unsafe {
+        alarm(if tier_is_thorough() { 1500 } else { 240 });
+    }
     let args: Vec<String> = std::env::args().collect();
     let out_path = args.get(1).expect("usage: c13 <ops-file> [--spec file] [lang...]").clone();
     let mut out = std::io::BufWriter::new(std::fs::File::create(&out_path).unwrap());
